@@ -6,6 +6,7 @@ import XzVerif.Proofs.LazyDec2
 import XzVerif.Proofs.LazyXz
 import XzVerif.Proofs.EofStable
 import XzVerif.Proofs.Src
+import XzVerif.Proofs.SrcLink
 import XzVerif.Gen.SrcReads
 /-
   C13 — Decoded output is independent of read sizes and source fragmentation; EOF is stable.
@@ -497,6 +498,23 @@ theorem C13_accesses_fragmentation_independent (a b : S) (ha : a.pos ≤ a.data.
 /-- non-vacuity: a source of seven bytes, one byte per call and the end together with the last byte -/
 example : (Src.readFull (Src.exSrc (fun _ => 1) true .eof) 5).2.2 = .ok ∧
     (Src.readFull (Src.exSrc (fun i => i + 1) false .eof) 9).2.2 = .unexpectedEOF := by decide
+
+open LazyDec LazyDec2 in
+/-- the link on the model side: where the LZMA2 reader model copies uncompressed chunk data (`ufill`) it uses exactly the
+    access layer's view of the doubly limited copy — position, remaining limit, bytes written to the dictionary, status -/
+theorem C13_reader_model_chunk_copy_is_the_access_layers_view (r : R2) (h : r.uEof = false) (hp : r.pos ≤ r.inp.size) :
+    (ufill r).1.pos = (Src.viewCopyLim r.inp r.pos (SrcLink.endOf r.srcErr) r.uN r.l.dict.buf.available).1 ∧
+    (ufill r).1.uN = (Src.viewCopyLim r.inp r.pos (SrcLink.endOf r.srcErr) r.uN r.l.dict.buf.available).2.1 ∧
+    (ufill r).1.l.dict =
+      (r.l.dict.write (Src.viewCopyLim r.inp r.pos (SrcLink.endOf r.srcErr) r.uN r.l.dict.buf.available).2.2.1).1 ∧
+    (ufill r).2 =
+      (match (Src.viewCopyLim r.inp r.pos (SrcLink.endOf r.srcErr) r.uN r.l.dict.buf.available).2.2.2 with
+       | .ok => RStat.ok
+       | .src => RStat.err .src
+       | _ =>
+         if 0 < (Src.viewCopyLim r.inp r.pos (SrcLink.endOf r.srcErr) r.uN r.l.dict.buf.available).2.2.1.size then RStat.ok
+         else if (ufill r).1.uN ≠ 0 then RStat.err .unexpectedEOF else RStat.eof) :=
+  SrcLink.ufill_is_viewCopyLim r h hp
 
 /-! ### END-SRC-BLOCK -/
 
